@@ -52,10 +52,16 @@ package job
 //@   ensures [C05,C06,C15] result == IsActive(rj)
 
 // ---- task_status.go: UpdateJobTaskRefs ------------------------------------------------------------------------------
-// FilterTaskRefs applies a caller-supplied predicate (dynamic call): ASSUMED to return a sub-list
-//@ extern func FilterTaskRefs
-//@   params taskRefs, filter
-//@   ensures len(result) <= len(taskRefs)
+// FilterTaskRefs keeps exactly the refs for which the caller-supplied predicate holds (the predicate is assumed pure)
+//@ func FilterTaskRefs
+//@   tags C11
+//@   fresh result
+//@   loop 1 invariant -1 <= rangeindex && rangeindex < len(taskRefs) && len(newRefs) <= rangeindex + 1
+//@   loop 1 invariant forall k int :: {newRefs[k]} 0 <= k && k < len(newRefs) ==> filter(newRefs[k]) && (exists i int :: 0 <= i && i <= rangeindex && taskRefs[i] == newRefs[k])
+//@   loop 1 invariant forall i int :: {taskRefs[i]} 0 <= i && i <= rangeindex && filter(taskRefs[i]) ==> (exists k int :: 0 <= k && k < len(newRefs) && newRefs[k] == taskRefs[i])
+//@   ensures [C11] a-sub-list: len(result) <= len(taskRefs)
+//@   ensures [C11] only-matching: forall k int :: {result[k]} 0 <= k && k < len(result) ==> filter(result[k]) && (exists i int :: 0 <= i && i < len(taskRefs) && taskRefs[i] == result[k])
+//@   ensures [C11] every-matching: forall i int :: {taskRefs[i]} 0 <= i && i < len(taskRefs) && filter(taskRefs[i]) ==> (exists k int :: 0 <= k && k < len(result) && result[k] == taskRefs[i])
 
 // the list records the task under its name with the status the task object reports (so not as lost)
 //@ pure notLost(refs []execution.TaskRef, t jobtasks.Task) bool = exists i int :: 0 <= i && i < len(refs) && refs[i].Name == jobtasks.taskName(t) && refs[i].Status == jobtasks.taskRefOf(t).Status
